@@ -19,7 +19,7 @@ from ..impl import play as iplay
 WEIGHTS = dict(base=1, cell=1, create=5, prop=8, method=8, garbage=0, position=3, ppos=2, map=1, noise=2, nested=5)
 
 CLEAN = ('unknown-prop', 'unknown-method', 'unknown-nested', 'unknown-position', 'prop-index', 'method-index', 'prop-truncated',
-         'method-truncated')
+         'method-truncated', 'unknown-retarget')
 DIRTY = ('create-bad-type', 'create-truncated', 'create-trailing', 'nested-garbage', 'short-packet')
 # failing packets that cannot legitimately have invoked a subscriber before they failed (creation packets that fail late may have
 # delivered some property values first): for these the invocation log must equal that of the stream without them, too
@@ -29,7 +29,19 @@ LOG_CLEAN = CLEAN + ('short-packet', 'create-bad-type', 'nested-garbage')
 def make_fault(rng, h, kind, subscribed):
     """a faulty packet for the current tracker state `h` (History), or None"""
     tab = h.tab
-    unknown = 3000000 + rng.randint(0, 1000)
+    # unknown ids come from a small pool per history, so that the same absent entity is addressed repeatedly (also back to back)
+    if not hasattr(h, 'unknown_pool'):
+        h.unknown_pool = [3000000 + rng.randint(0, 1000) for _ in range(2)]
+    unknown = rng.choice(h.unknown_pool)
+    if kind == 'unknown-retarget':
+        # a well-formed recent packet for a live entity, re-addressed to an absent one (what a stream looks like when a creation
+        # packet was lost): valid index and payload for the entity addressed just before it
+        cands = [(t, p) for t, p, m in h.packets[-6:] if m.get('kind') in ('prop', 'method', 'nested', 'position') and len(p) >= 4
+                 and not m.get('garbage') and not m.get('expect_error')]
+        if not cands:
+            return None
+        t, p = cands[-1] if rng.random() < 0.7 else rng.choice(cands)
+        return t, struct.pack('<I', unknown) + p[4:]
     ids = [eid for eid in h.world if 0 <= eid < 2 ** 31]
     if kind == 'unknown-prop':
         return tab['prop'], struct.pack('<II', unknown, 0) + history.bstream(b'\x00' * 4)
@@ -102,9 +114,11 @@ def build_case(rng, views, dialect, n_events, n_faults, dirty):
             kind = rng.choice(CLEAN + (DIRTY if dirty else ()))
             f = make_fault(rng, h, kind, subscribed)
             if f is not None:
-                h.time += 1
-                h.packets.append((f[0], f[1], {'kind': 'fault', 'fault': kind, 'time': h.time}))
-                faults.append(len(h.packets) - 1)
+                # the same faulty packet 1..3 times in a row (a repeated fault must fail each time, with no carry-over)
+                for _ in range(rng.choice([1, 1, 2, 3]) if kind.startswith('unknown') else 1):
+                    h.time += 1
+                    h.packets.append((f[0], f[1], {'kind': 'fault', 'fault': kind, 'time': h.time}))
+                    faults.append(len(h.packets) - 1)
             continue
         k = rng.choices(kinds, [w[x] for x in kinds])[0]
         {'base': lambda: h.base_player(h.player_id if rng.random() < 0.5 else None), 'cell': h.cell_player, 'create': h.entity_create,
